@@ -486,3 +486,18 @@ package pubsub
 //@            lastarg((*pubsubTracer).UndeliverableMessage, 1) == msg)
 //@   loop 1 step filter-respected: sent(f.ch) > iter(sent(f.ch)) && f.filter != nil ==> calls(dyn:filter) == iter(calls(dyn:filter)) + 1 && lastret(dyn:filter)
 //@   loop 1 invariant own-topic: forall s *Subscription :: $visited[s] ==> s in p.mySubs[topicOf(msg)]
+
+// handleNewStream's deferred cleanup (C13): when the reader of an inbound stream ends, the
+// stream's registration is removed unless a newer stream of the same peer has replaced it (then
+// the newer registration is kept), and the event loop is told that the stream closed if and only
+// if it had been told that it opened (unless the instance is shutting down) - so the per-peer
+// state created on the inbound side is always released, in whatever order streams come and go.
+//@ func (*PubSub).handleNewStream$1
+//@   property C13
+//@   modifies monitor(PubSub.inboundStreamsMx)
+//@   ensures registration-released: !(peer in p.inboundStreams && p.inboundStreams[peer].s == s)
+//@   ensures newer-registration-kept: lin(peer in p.inboundStreams && p.inboundStreams[peer].s != s) ==> peer in p.inboundStreams && p.inboundStreams[peer] == lin(p.inboundStreams[peer])
+//@   ensures others-kept: forall q string :: q != peer ==> (q in p.inboundStreams) == lin(q in p.inboundStreams) && p.inboundStreams[q] == lin(p.inboundStreams[q])
+//@   ensures close-reported-iff-open-reported: sent(p.incoming) - old(sent(p.incoming)) <= ite(sentNewStream, 1, 0) &&
+//@        (sent(p.incoming) > old(sent(p.incoming)) ==> lastsent(p.incoming).kind == incomingKindClosedStream && lastsent(p.incoming).s == s) &&
+//@        (sentNewStream && sent(p.incoming) == old(sent(p.incoming)) ==> ctxdone(p.ctx))
